@@ -18,6 +18,7 @@ func Copy(src, dest string) error {
 
 // CopyDirectory copy a directory and sub-direcotories and files on local files system.
 func CopyDirectory(src, dest string) error {
+	cleanDest := filepath.Clean(dest)
 	return filepath.Walk(src, func(path string, info os.FileInfo, err error) error {
 		if err != nil {
 			return err
@@ -27,6 +28,11 @@ func CopyDirectory(src, dest string) error {
 			return err
 		}
 		if info.IsDir() {
+			// a destination below the source is reached by the walk itself: the copy that is
+			// being built is not part of what has to be copied
+			if filepath.Clean(path) == cleanDest {
+				return filepath.SkipDir
+			}
 			return MkdirAll(filepath.Join(dest, subPath), filesystem.DefaultUnixDirMode)
 		}
 		return CopyFile(path, filepath.Join(dest, subPath))
